@@ -64,7 +64,8 @@ procedure Load(u)
  LdRet:    return; };
  Raw:   call RawLoad(u);
  RawRet: return;
- Halt:  await FALSE;
+ Halt:  if (self # Main) { tstate[self] := "done"; };       \* a loader thread that dies of an exception has ended: joining it returns
+ HDead: await FALSE;
 }
 
 procedure RawLoad(v)
@@ -90,8 +91,10 @@ procedure Deferred(w)
  DfSet:  loading[w] := newt;
  DfGet:  st := loading[w];
          if (st = 0) { err[self] := "KeyError"; goto DHalt; };
- DfStart: tstate[st] := "running"; return;
- DHalt:  await FALSE;
+ DfStart: if (tstate[st] # "created") { err[self] := "RuntimeError"; goto DHalt; }     \* Thread.start() of a thread that was started before
+          else { tstate[st] := "running"; return; };
+ DHalt: if (self # Main) { tstate[self] := "done"; };
+ DDead: await FALSE;
 }
 
 process (M \in {Main})
@@ -267,15 +270,26 @@ RawRet(self) == /\ pc[self] = "RawRet"
                                 i, doc, w, newt, st, k >>
 
 Halt(self) == /\ pc[self] = "Halt"
-              /\ FALSE
-              /\ pc' = [pc EXCEPT ![self] = "Error"]
-              /\ UNCHANGED << loaded, loading, tstate, targ, nthr, ndoc, err, 
-                              results, cachew, cache, reload, epoch, ret, 
-                              stack, u, jt, v, i, doc, w, newt, st, k >>
+              /\ IF self # Main
+                    THEN /\ tstate' = [tstate EXCEPT ![self] = "done"]
+                    ELSE /\ TRUE
+                         /\ UNCHANGED tstate
+              /\ pc' = [pc EXCEPT ![self] = "HDead"]
+              /\ UNCHANGED << loaded, loading, targ, nthr, ndoc, err, results, 
+                              cachew, cache, reload, epoch, ret, stack, u, jt, 
+                              v, i, doc, w, newt, st, k >>
+
+HDead(self) == /\ pc[self] = "HDead"
+               /\ FALSE
+               /\ pc' = [pc EXCEPT ![self] = "Error"]
+               /\ UNCHANGED << loaded, loading, tstate, targ, nthr, ndoc, err, 
+                               results, cachew, cache, reload, epoch, ret, 
+                               stack, u, jt, v, i, doc, w, newt, st, k >>
 
 Load(self) == LdIn(self) \/ LdGet(self) \/ LgIn(self) \/ LgGet(self)
                  \/ Join(self) \/ Joined(self) \/ LgPop(self)
                  \/ LdRet(self) \/ Raw(self) \/ RawRet(self) \/ Halt(self)
+                 \/ HDead(self)
 
 RFetch(self) == /\ pc[self] = "RFetch"
                 /\ IF cache[v[self]] = "fresh" /\ ~reload
@@ -412,17 +426,32 @@ DfGet(self) == /\ pc[self] = "DfGet"
                                stack, u, jt, v, i, doc, w, newt, k >>
 
 DfStart(self) == /\ pc[self] = "DfStart"
-                 /\ tstate' = [tstate EXCEPT ![st[self]] = "running"]
-                 /\ pc' = [pc EXCEPT ![self] = Head(stack[self]).pc]
-                 /\ newt' = [newt EXCEPT ![self] = Head(stack[self]).newt]
-                 /\ st' = [st EXCEPT ![self] = Head(stack[self]).st]
-                 /\ w' = [w EXCEPT ![self] = Head(stack[self]).w]
-                 /\ stack' = [stack EXCEPT ![self] = Tail(stack[self])]
-                 /\ UNCHANGED << loaded, loading, targ, nthr, ndoc, err, 
-                                 results, cachew, cache, reload, epoch, ret, u, 
-                                 jt, v, i, doc, k >>
+                 /\ IF tstate[st[self]] # "created"
+                       THEN /\ err' = [err EXCEPT ![self] = "RuntimeError"]
+                            /\ pc' = [pc EXCEPT ![self] = "DHalt"]
+                            /\ UNCHANGED << tstate, stack, w, newt, st >>
+                       ELSE /\ tstate' = [tstate EXCEPT ![st[self]] = "running"]
+                            /\ pc' = [pc EXCEPT ![self] = Head(stack[self]).pc]
+                            /\ newt' = [newt EXCEPT ![self] = Head(stack[self]).newt]
+                            /\ st' = [st EXCEPT ![self] = Head(stack[self]).st]
+                            /\ w' = [w EXCEPT ![self] = Head(stack[self]).w]
+                            /\ stack' = [stack EXCEPT ![self] = Tail(stack[self])]
+                            /\ err' = err
+                 /\ UNCHANGED << loaded, loading, targ, nthr, ndoc, results, 
+                                 cachew, cache, reload, epoch, ret, u, jt, v, 
+                                 i, doc, k >>
 
 DHalt(self) == /\ pc[self] = "DHalt"
+               /\ IF self # Main
+                     THEN /\ tstate' = [tstate EXCEPT ![self] = "done"]
+                     ELSE /\ TRUE
+                          /\ UNCHANGED tstate
+               /\ pc' = [pc EXCEPT ![self] = "DDead"]
+               /\ UNCHANGED << loaded, loading, targ, nthr, ndoc, err, results, 
+                               cachew, cache, reload, epoch, ret, stack, u, jt, 
+                               v, i, doc, w, newt, st, k >>
+
+DDead(self) == /\ pc[self] = "DDead"
                /\ FALSE
                /\ pc' = [pc EXCEPT ![self] = "Error"]
                /\ UNCHANGED << loaded, loading, tstate, targ, nthr, ndoc, err, 
@@ -431,6 +460,7 @@ DHalt(self) == /\ pc[self] = "DHalt"
 
 Deferred(self) == DfLdIn(self) \/ DfLgIn(self) \/ DfSet(self)
                      \/ DfGet(self) \/ DfStart(self) \/ DHalt(self)
+                     \/ DDead(self)
 
 MBegin(self) == /\ pc[self] = "MBegin"
                 /\ TRUE
